@@ -23,6 +23,12 @@ CLAIMED = {
             'for every sequence of operations.',
             'Disk::read/write results are opaque amounts; unsigned wrap-around not modelled; the used size has no writer other than incr/decr_used_size and parse_content (checked).',
             'DESIGN.md §3 C46'),
+    'C05': ('affine token conservation per CFG path, who-may-write, container discipline, guard dominance with linear normal form, sibling agreement',
+            'Every path of SemaphoreImpl::{acquire_async,release} satisfies delta(value_)+grants = 0 resp. 1 and value_/granted_ have no other writer, so tokens granted never exceed '
+            'capacity + releases for any program; the queue is inserted at the back only when no token is free and granted from the front; the timeout path of finish() cancels and '
+            'moves no token; the timeout is armed exactly for timeout >= 0 (same sentinel as ActivityImpl::wait_for and the S4U layer); MC and non-MC branches run the same kernel sequence.',
+            'Trusts clang AST/CFG; fairness among actors woken at the same date and the dates themselves are not decided.',
+            'DESIGN.md §3 C05'),
 }
 
 NOT_APPLICABLE = {
